@@ -273,6 +273,13 @@ def gen_c01(rng, idx, tier, faults):
             else:
                 seq.append({"op": "FIT", "obj": name, "X": curX, "y": curY, "warm": True, "env": mk_env()})
             cur = new
+        if cur is not None and cur < n_from and rng.random() < 0.06:
+            # a shallow copy of the fitted selector is continued; the original is read afterwards
+            fk = name + "f"
+            seq.append({"op": "FORK", "obj": fk, "from": name})
+            seq.append({"op": "SET", "obj": fk, "params": {"n_to_select": n_form(rng, rng.randint(cur + 1, n_from), n_from)}})
+            seq.append({"op": "FIT", "obj": fk, "X": curX, "y": curY, "warm": True, "env": mk_env()})
+            seq.append(gen_read(rng, name, cls))
         if reuse and not any(o["op"] == "MUTATE" for o in seq):
             rec = {k: v for k, v in xs.items() if k != "storage"}
             rec["seed"] = _seed(rng)
@@ -285,7 +292,14 @@ def gen_c01(rng, idx, tier, faults):
     while any(plans):
         s = rng.choice([q for q in plans if q])
         ops.append(s.pop(0))
+    _warm_forms(rng, ops)
     return {"heap": heap, "ops": ops}
+
+
+def _warm_forms(rng, ops):
+    for o in ops:
+        if o["op"] == "FIT" and o.get("warm") and rng.random() < 0.1:
+            o["warm_form"] = rng.choice(["np_bool", "int"])
 
 
 # ----------------------------------------------------------------------------- C06
@@ -406,6 +420,10 @@ def gen_c06(rng, idx, tier, faults):
             c = dict(e["clock"])
             e["rng"] = {"seed": c.pop("_rng")}  # another ambient RNG state per lane
             e["clock"] = c
+    wf = rng.choice(["np_bool", "int"]) if rng.random() < 0.1 else None
+    for o in ops:
+        if wf and o["op"] == "FIT" and o.get("warm"):
+            o["warm_form"] = wf  # the same form in every lane
     return {"heap": heap, "ops": ops}
 
 
@@ -543,6 +561,7 @@ def gen_c08(rng, idx, tier, faults):
     while any(plans):
         s = rng.choice([q for q in plans if q])
         ops.append(s.pop(0))
+    _warm_forms(rng, ops)
     return {"heap": heap, "ops": ops}
 
 
@@ -562,7 +581,7 @@ def reductions(trace):
         t["ops"] = new_ops
         used = set()
         for o in new_ops:
-            for k in ("X", "y"):
+            for k in ("X", "y", "h"):
                 if o.get(k):
                     used.add(o[k])
         t["heap"] = {k: v for k, v in t["heap"].items() if k in used}
@@ -574,15 +593,17 @@ def reductions(trace):
             dep = any(
                 isinstance(v, dict) and v.get("$prefix_of") == name
                 for o in ops
-                if o["op"] in ("NEW", "SET") and o["obj"] != name
+                if o["op"] in ("NEW", "SET") and o.get("obj") != name
                 for v in o["params"].values()
-            ) or any(o.get("twin_from") == name for o in ops if o["op"] == "NEW")
+            ) or any(o.get("twin_from") == name for o in ops if o["op"] == "NEW") or any(
+                o.get("from") == name for o in ops if o["op"] == "FORK"
+            )
             if not dep:
-                yield with_ops([o for o in ops if o["obj"] != name])
+                yield with_ops([o for o in ops if o.get("obj") != name])
     # 2. drop a trailing op / single ops (never a NEW that is still used)
     for i in range(len(ops) - 1, -1, -1):
         o = ops[i]
-        if o["op"] == "NEW":
+        if o["op"] in ("NEW", "FORK"):
             continue
         yield with_ops(ops[:i] + ops[i + 1 :])
     # 3. quiet environment
